@@ -150,7 +150,10 @@ def forall_range(lo, hi, body, pats=None, name="k"):
 
 def be_bytes(n, k):
     """k-byte big-endian representation of n (0 <= n < 256^k)."""
-    return smt.cat_all([unit((n / (256 ** (k - 1 - j))) % 256) for j in range(k)])
+    qs = [n]
+    for _ in range(k - 1):
+        qs.append(qs[-1] / 256)  # nested division by 256: keeps every obligation linear for the solver
+    return smt.cat_all([unit(qs[k - 1 - j] % 256) for j in range(k)])
 
 
 def header_len(n):
